@@ -6,7 +6,7 @@ from vlib import common as C
 from specs.dual_common import *
 from mirsym.machine import RustPanic
 
-NAMES = ["aaa", "bbb", "ccc", "ddd", "eee", "fff", "ggg"]
+NAMES = ["aaa", "bbb", "ccc", "ddd", "eee", "fff", "ggg", "hhh", "iii", "jjj", "kkk", "lll", "mmm", "nnn"]
 
 
 def structures(q, with_base=True):
@@ -30,6 +30,35 @@ def structures(q, with_base=True):
     if with_base:
         for pairs, k in rec(1, [], q):
             out.append((pairs, 0, k))
+    return out
+
+
+def big_structures(sizes, variants):
+    """representative spanning trees over many currencies (chains, stars, caterpillars, pseudo-random trees), with mixed quote
+    orientations and shuffled quote order; labels are canonical (base first, then by first appearance), as try_new inserts them"""
+    import random
+    out = []
+    for n in sizes:
+        shapes = {"chain": [(i, i + 1) for i in range(n - 1)], "star": [(0, i) for i in range(1, n)],
+                  "star_last": [(n - 1, i) for i in range(n - 1)], "caterpillar": [(i, i + 1) for i in range(n // 2)] + [(i % (n // 2 + 1), n // 2 + 1 + i) for i in range(n - 1 - n // 2)]}
+        rnd = random.Random(1000 + n)
+        shapes["random"] = [(rnd.randrange(i), i) for i in range(1, n)]
+        for name in variants:
+            edges = shapes[name]
+            rs = random.Random(sum(map(ord, name)) * 100 + n)
+            edges = [(a, b) if rs.random() < 0.5 else (b, a) for a, b in edges]
+            rs.shuffle(edges)
+            for base in (None, edges[len(edges) // 2][0]):
+                # canonical relabelling
+                lab = {}
+                if base is not None:
+                    lab[base] = 0
+                for a, b in edges:
+                    for x in (a, b):
+                        if x not in lab:
+                            lab[x] = len(lab)
+                pairs = [(lab[a], lab[b]) for a, b in edges]
+                out.append((f"{name}{n}", pairs, None if base is None else 0, n))
     return out
 
 
